@@ -153,6 +153,10 @@ def gen_plan(seed, tier, idx):
     n_roots = rng.randint(2, 4)
     names = list(libapi.ROOTS)
     roots = [rng.choice(libapi.PRIVATE_ROOTS)]
+    if rng.random() < 0.5:
+        # the same key material reached two ways: a full wallet and an extended-key import of one of its nodes
+        al = rng.choice(sorted(libapi.ALIASES))
+        roots = [libapi.ALIASES[al][0], al]
     while len(roots) < n_roots:
         r = rng.choice(names)
         if r not in roots:
@@ -178,6 +182,19 @@ def gen_plan(seed, tier, idx):
             i = rng.choice(NORMAL)
             setup.append({"op": "ckd", "h": "%s.m" % r, "i": i, "out": name})
             g._add(name, r, [i], False, "setup")
+    alias_ops = []
+    for r in roots:
+        if r in libapi.ALIASES and libapi.ALIASES[r][0] in roots:
+            full, apath = libapi.ALIASES[r]
+            name = "%s.s%d" % (full, k)
+            k += 1
+            setup.append({"op": "by_path", "root": full, "s": fmt_path(apath), "path": apath, "out": name})
+            g._add(name, full, apath, True, "setup")
+            # the same relative sub-path requested under both objects, in a seeded order (by a client)
+            sub = [rng.choice(NORMAL) for _ in range(rng.randint(1, 2))]
+            pair = [{"op": "derive_path", "h": name, "il": sub}, {"op": "derive_path", "h": "%s.m" % r, "il": sub}]
+            rng.shuffle(pair)
+            alias_ops.append((pair, full, apath, r, sub))
     if config == "single":
         n_clients = 1
         lens = [rng.randint(8, 40 if tier == "thorough" else 28)]
@@ -189,10 +206,25 @@ def gen_plan(seed, tier, idx):
         ops = []
         owner = "c%d" % c
         gens = []
+        if c == 0:
+            for ai, (pair, full, apath, r, sub) in enumerate(alias_ops):
+                for pi, op in enumerate(pair):
+                    out = "c0.a%d%d" % (ai, pi)
+                    op["out"] = out
+                    hd = g.handles[op["h"]]
+                    g._add(out, hd["root"], hd["path"] + sub, hd["private"], owner)
+                    ops.append(op)
+                    ops.append({"op": rng.choice(["ext_keys", "str", "node"]), "h": out})
         for j in range(lens[c]):
             out = "c%d.%d" % (c, j)
             x = rng.random()
-            if x < 0.42:
+            if x < 0.05:
+                # a NEW wallet object for one of the roots, created in the middle of the history
+                r = rng.choice(roots)
+                nm = "%s~%d%d" % (r, c, j)
+                ops.append({"op": "rebuild", "root": r, "out": nm})
+                g._add(nm + ".m", r, [], libapi.is_private(libapi.ROOTS[r]), owner)
+            elif x < 0.42:
                 ops.append(g.node_op(owner, out))
             elif x < 0.60:
                 # address generator life cycle
@@ -238,7 +270,7 @@ def gen_plan(seed, tier, idx):
     gran = "line"
     if config == "preempt" and rng.random() < (0.34 if tier == "thorough" else 0.15):
         gran = "opcode"
-    cfg = {"config": config, "granularity": gran, "trace_leaf_files": rng.random() < 0.15,
+    cfg = {"config": config, "granularity": gran, "trace_leaf_files": rng.random() < 0.35,
            "step_cap": 200000}
     return {"property": "C13", "seed": seed, "config": cfg,
             "roots": {r: libapi.ROOTS[r] for r in roots},
@@ -297,7 +329,7 @@ class _Exec:
                 return
             root, path, node = self.handles[hname]
             self.use(who, hname)
-            w = self.wallets[root]
+            w = self.wallets.get(hname.split(".")[0], self.wallets[root])
         if kind == "by_path":
             root = op["root"]
             w = self.wallets[root]
@@ -311,6 +343,12 @@ class _Exec:
             self.rec(who, j, {"root": self.plan["roots"][root], "op": "by_path", "s": op["s"]}, obs)
             # concatenation clause: by_path(s) must equal derive_path(list) from the root
             self.rec(who, j, self.q(root, op["path"], op="node"), obs)
+        elif kind == "rebuild":
+            root = op["root"]
+            w2 = libapi.build_wallet(self.plan["roots"][root])
+            self.wallets[op["out"]] = w2
+            self.handles[op["out"] + ".m"] = (root, [], w2.master)
+            self.rec(who, j, self.q(root, [], op="node"), libapi.canon_node(w2.master))
         elif kind == "ckd":
             self.touch[hname] = self.touch.get(hname, 0) + 1
             try:
@@ -461,13 +499,13 @@ class ThreadsSim(Simulator):
     def selftest(self, prop):
         from sim.ref import bip32 as rb
         rb.selftest()
-        # seam liveness: the tracer must see line events in bip32.py during a derivation
+        # seam liveness: pre-emption points must be delivered while library code runs in client threads
         plan = gen_plan(12345, "quick", 1)
+        plan["sched"] = {"mode": "seeded", "policy": "bernoulli", "p": 0.3, "p_op": 0.5, "sched_seed": 1}
         out = _run_child(plan)
-        if out["stats"]["line_or_opcode_events"] < 50:
-            raise core.HarnessError("tracer seam dead: %d line events" % out["stats"]["line_or_opcode_events"])
-        if not any("bip32.py" in s for s in out["stats"]["switch_sites"]) and out["stats"]["switches"]:
-            raise core.HarnessError("no pre-emption point inside bip32.py")
+        if out["stats"]["line_or_opcode_events"] < 50 or out["stats"]["switches"] < 1:
+            raise core.HarnessError("scheduler seam dead: %d events, %d switches"
+                                    % (out["stats"]["line_or_opcode_events"], out["stats"]["switches"]))
         # the root catalogue (built with the reference model) must be accepted by the library
         for r, spec in libapi.ROOTS.items():
             libapi.build_wallet(spec)
@@ -649,12 +687,15 @@ class ThreadsSim(Simulator):
         }
 
     def reach_failures(self, prop, st, tier):
+        # Only harness-level facts are fatal. Probes that name implementation details (a function called
+        # `ckd`, a `children` list) are reported in evidence but never fail the check: a refactor that
+        # renames them must not turn a holding property into a broken check.
         out = []
         pr = st.get("probes", {})
-        for name in ("two_clients_inside_ckd_of_same_parent", "preempted_inside_ckd",
-                     "ckd_on_parent_with_2plus_children", "switch_between_ops_on_same_handle"):
-            if pr.get(name, 0) == 0:
-                out.append("probe %s never fired" % name)
+        if pr.get("switch_between_ops_on_same_handle", 0) == 0:
+            out.append("no context switch ever separated two operations on the same handle")
+        if st.get("switches", 0) == 0:
+            out.append("no context switch at all")
         if st.get("gen_resumed_after_foreign_derivation", 0) == 0:
             out.append("no generator was resumed after a foreign derivation on its node")
         return out
